@@ -61,18 +61,28 @@ def cache_dir(seed, tier):
 
 
 class Lock:
+    """exclusive file lock, re-entrant within this process"""
+    held = {}
+
     def __init__(self, name):
         os.makedirs(WORK, exist_ok=True)
+        self.name = name
         self.path = os.path.join(WORK, name + ".lock")
 
     def __enter__(self):
-        self.f = open(self.path, "w")
-        fcntl.flock(self.f, fcntl.LOCK_EX)
+        if Lock.held.get(self.name, 0) == 0:
+            f = open(self.path, "w")
+            fcntl.flock(f, fcntl.LOCK_EX)
+            Lock.held[self.name + ":f"] = f
+        Lock.held[self.name] = Lock.held.get(self.name, 0) + 1
         return self
 
     def __exit__(self, *a):
-        fcntl.flock(self.f, fcntl.LOCK_UN)
-        self.f.close()
+        Lock.held[self.name] -= 1
+        if Lock.held[self.name] == 0:
+            f = Lock.held.pop(self.name + ":f")
+            fcntl.flock(f, fcntl.LOCK_UN)
+            f.close()
 
 
 def cached(stage, seed, tier, compute, lockname=None):
